@@ -388,7 +388,20 @@ func c06Oracle(c *Ctx) func(a *AdmitCase, g AdmitOut) {
 func runC07(c *Ctx) {
 	n := sizes(c, 4000, 80000)
 	k := AdmitKnobs{FaultPct: 60, SynPct: 60, SubPct: 10}
-	admitSweep(c, n, k, "allowed code ann evalCalls warnings metrics", "allowed ann", func(a *AdmitCase, g AdmitOut) {
+	extra := c07Oracle(c)
+	admitSweep(c, n, k, "allowed code ann evalCalls warnings metrics", "allowed ann", extra, nil)
+	// namespace updates that run the dry run, cancelled at every position (also while compliant pods are being evaluated)
+	kn := AdmitKnobs{Kind: "ns", FaultPct: 10, SynPct: 60, SubPct: 0, Pods: func(r *Rng) []*corev1.Pod { return genPopulation(r, r.Intn(11), []string{"exrc"}) }}
+	admitSweep(c, n/4, kn, "allowed code ann evalCalls warnings metrics", "allowed ann", extra, func(r *Rng, a *AdmitCase) {
+		nsMutate(r, a)
+		if len(a.Pods) > 0 && r.Chance(2, 3) {
+			a.ExpireAfter = r.Intn(len(a.Pods) + 1)
+		}
+	})
+}
+
+func c07Oracle(c *Ctx) func(a *AdmitCase, g AdmitOut) {
+	return func(a *AdmitCase, g AdmitOut) {
 		in := a.opJSON()
 		switch {
 		case a.Res == "pods":
@@ -445,6 +458,27 @@ func runC07(c *Ctx) {
 			if g.ListCalls > 0 && a.ListErr && (len(g.Warnings) != 1 || !strings.Contains(g.Warnings[0], "failed to list pods")) {
 				c.Violate(Finding{Desc: "pod listing failed but is not reported as a warning", Key: "ns-list-warning", Input: in, Go: g})
 			}
+			if g.ListCalls == 1 && !a.ListErr && a.ExpireAfter >= 0 && len(g.EvalCalls) > a.ExpireAfter {
+				// the request was cancelled from inside evaluator call number ExpireAfter (0-based)
+				c.Tag("c07.cancelledDuringDryRun")
+				if len(g.EvalCalls) > a.ExpireAfter+1 {
+					c.Violate(Finding{Desc: fmt.Sprintf("the request was cancelled during evaluation %d of the dry run, but the dry run went on to evaluate %d pods (the update is held up)", a.ExpireAfter+1, len(g.EvalCalls)),
+						Key: "ns-cancel-ignored", Input: in, Go: g})
+				}
+				evaluable := 0
+				for _, p := range a.Pods {
+					if p.Spec.RuntimeClassName == nil || !inList(*p.Spec.RuntimeClassName, a.ExRC) {
+						evaluable++
+					}
+				}
+				reported := false
+				for _, w := range g.Warnings {
+					reported = reported || strings.Contains(w, "only checked against the first")
+				}
+				if a.ExpireAfter+1 < evaluable && evaluable <= 3000 && !reported {
+					c.Violate(Finding{Desc: fmt.Sprintf("the dry run was cancelled after %d of %d pods but no warning says so", a.ExpireAfter+1, evaluable), Key: "ns-cancel-not-reported", Input: in, Go: g})
+				}
+			}
 		default:
 			if !g.Allowed {
 				c.Violate(Finding{Desc: "pod-controller request denied", Key: "controller-denied", Input: in})
@@ -463,7 +497,7 @@ func runC07(c *Ctx) {
 				}
 			}
 		}
-	}, nil)
+	}
 }
 
 // ---------------------------------------------------------------- C08
